@@ -152,6 +152,9 @@ def enum_name(e):
     return "%s::%s" % (t, d.get("name"))
 
 
+_HOISTED = None
+
+
 def canon(e, refs=True, _depth=0):
     """Structural canonical form of an expression (nested tuples).
 
@@ -178,6 +181,27 @@ def canon(e, refs=True, _depth=0):
                     return rec(init[-1])
             if refs and d.get("_rangevar") is not None:
                 return ("elem", rec(d["_rangevar"]), d.get("id"))
+            if dk == "VarDecl" and (d.get("constexpr") or qt(d).startswith("const ")) and "&" not in qt(d) and "*" not in qt(d):
+                # a named constant (`constexpr int kFactor = 2;`) is the literal it names
+                init = [c for c in children(d)]
+                lit = strip(init[-1], casts=True) if init else None
+                neg = False
+                if lit is not None and lit.get("kind") == "UnaryOperator" and lit.get("opcode") == "-" and children(lit):
+                    lit, neg = strip(children(lit)[0], casts=True), True
+                if lit is not None and lit.get("kind") in ("IntegerLiteral", "FloatingLiteral", "CXXBoolLiteralExpr"):
+                    v = rec(lit)
+                    return ("un", "-", v) if neg else v
+            if dk == "VarDecl" and refs and "_p" in d:
+                # a count read once into a local (`const int n = nbCells();`) is the call it aliases (rules/common.hoisted_count)
+                h = d.get("_hoisted")
+                if h is None:
+                    global _HOISTED
+                    if _HOISTED is None:
+                        from .rules.common import hoisted_count as _hc
+                        _HOISTED = _hc
+                    h = _HOISTED(d)
+                if h:
+                    return h
             return ("var", d.get("id"), d.get("name"))
         return ("decl", dk, d.get("_q") or d.get("name"))
     if k == "MemberExpr":
